@@ -18,6 +18,7 @@ type baseHandler struct {
 	server       string
 	shellStarted bool
 	commands     chan string
+	sendBuf      bytes.Buffer
 	receiveBuf   bytes.Buffer
 	status       int
 }
@@ -78,9 +79,15 @@ func (h *baseHandler) Write(p []byte) (n int, err error) {
 
 // Send data to the dtail server via Reader interface.
 func (h *baseHandler) Read(p []byte) (n int, err error) {
+	if h.sendBuf.Len() > 0 {
+		// Deliver the remainder of a command which didn't fit into p last time.
+		return h.sendBuf.Read(p)
+	}
+
 	select {
 	case command := <-h.commands:
-		n = copy(p, []byte(command))
+		h.sendBuf.WriteString(command)
+		n, _ = h.sendBuf.Read(p)
 	case <-h.Done():
 		return 0, io.EOF
 	}
